@@ -48,7 +48,27 @@ def refpath_hits(scratch):
                         seen.add(sig)
                         hits.append({"signature": sig, "what": "ctraits.c %s: on a path ending in '%s' the value '%s' is not "
                                      "handled neutrally (events: %s)" % (name, kind, v, " ".join("%s:%s" % x for x in evs if x[0] == v))})
+    hits += stale_borrow_hits(src, seen)
     return hits
+
+
+def stale_borrow_hits(src, seen):
+    """Twin of `Model/RefBorrows.staleBorrows` over what `translate/crefborrows.py` reads: signature
+    `stale-borrow:<function>:<value>` (a field-borrowed value used after a call that can run arbitrary code)."""
+    from translate import crefborrows as B
+    out = []
+    try:
+        found = B.hits(src)
+    except Exception:
+        return out              # the translator itself fails closed
+    for (fn, v, evs) in found:
+        sig = "stale-borrow:%s:%s" % (fn, v)
+        if sig not in seen:
+            seen.add(sig)
+            out.append({"signature": sig, "what": "ctraits.c %s: the field-borrowed value '%s' is used after a call that can "
+                        "run arbitrary code, with no reference protecting it or the tuple it was taken from (events: %s)"
+                        % (fn, v, " ".join("%s:%s" % x for x in evs)[:300])})
+    return out
 
 
 if __name__ == "__main__":
